@@ -410,8 +410,11 @@ class Check:
                         traces_validated_against_impl=0)
         self.assumptions = []
         self.notes = {}
-        os.makedirs(os.path.join(VERIF, "evidence"), exist_ok=True)
-        self.replay_dir = os.path.join(VERIF, "replays")
+        # runs against a scratch copy of the repository (VERIF_REPO set: seeded changes, experiments) must not overwrite
+        # the evidence of the registered checks
+        self.evidence_dir = os.environ.get("VERIF_EVIDENCE_DIR") or (os.path.join(VERIF, "evidence") if REPO == "/repo" else os.path.join(CACHE, "evidence_scratch"))
+        os.makedirs(self.evidence_dir, exist_ok=True)
+        self.replay_dir = os.path.join(VERIF, "replays") if REPO == "/repo" else os.path.join(CACHE, "replays_scratch")
         os.makedirs(self.replay_dir, exist_ok=True)
         self.kf = [k for k in known_findings() if k.get("property") == pid]
 
@@ -473,7 +476,7 @@ class Check:
                   violations=len(self.violations))
         ev["coverage"].update(self.notes)
         ev["coverage"]["known_findings_replayed"] = self.known_hit
-        with open(os.path.join(VERIF, "evidence", self.pid + ".json"), "w") as f:
+        with open(os.path.join(self.evidence_dir, self.pid + ".json"), "w") as f:
             json.dump(ev, f, indent=1, default=str)
         if self.violations:
             return 1
